@@ -39,6 +39,7 @@ class Gate:
                 self.wrole[w] = "ep"
         self._stage = {}
         self._val = {}
+        self._isstage = {}
         from .common import checkers_pins_definition
         self._defn = set(checkers_pins_definition(f))
 
@@ -95,12 +96,144 @@ class Gate:
         return out
 
     def is_stage(self, name):
+        """a helper of a constructor that fills part of a `&mut Board` (whatever it is called and however it reports
+        failure: Result, Option, bool or nothing)"""
+        if name in self._isstage:
+            return self._isstage[name]
         b = self.f.bodies.get(name)
-        if b is None or b.kind not in ("Fn", "AssocFn"):
-            return False
-        if not b.locals[0]["ty"].startswith("core::result::Result<"):
-            return False
-        return any(b.locals[i]["ty"] == "&mut " + B for i in range(1, b.argc + 1))
+        r = False
+        if b is not None and b.kind in ("Fn", "AssocFn") and b.crate.startswith("cozy_chess") and b.promoted is None \
+                and name not in self.W and name not in self._defn and name not in (B + "::from_fen", BUILDER + "::build") \
+                and not self.f.fns.get(name, {}).get("pub") \
+                and any(b.locals[i]["ty"] == "&mut " + B for i in range(1, b.argc + 1)):
+            rt = b.locals[0]["ty"]
+            if rt.startswith("core::result::Result<") or rt.startswith("core::option::Option<") or rt in ("bool", "()"):
+                self._isstage[name] = False      # recursion guard
+                r = bool(self.stage_roles(name))
+        self._isstage[name] = r
+        return r
+
+    # ---- private helpers by role
+    def validators(self):
+        """{role: [validator functions]} among everything the two constructors reach"""
+        if "validators" not in self._stage:
+            out = {}
+            for k in reachable_bodies(self.f, [B + "::from_fen", BUILDER + "::build"]):
+                r = self.validator_role(k)
+                if r is not None and self.f.bodies[k].crate == "cozy_chess" and not self.f.fns.get(k, {}).get("pub"):
+                    out.setdefault(r, []).append(k)
+            self._stage["validators"] = {r: sorted(v) for r, v in out.items()}
+        return self._stage["validators"]
+
+    def validator(self, role):
+        v = self.validators().get(role, [])
+        if len(v) != 1:
+            from ..facts import MissingAnchor
+            raise MissingAnchor("the validator of the %s part of a board (found %s)" % (role, [x.rsplit("::", 1)[-1] for x in v]))
+        return v[0]
+
+    def stages(self, ctor):
+        """stage functions a constructor reaches (not looking inside stages)"""
+        key = ("stages", ctor)
+        if key not in self._stage:
+            out = []
+            seen = set()
+            work = [ctor]
+            while work:
+                k = work.pop()
+                for k2, b in self.f.bodies.items():
+                    if k2 == k or k2.startswith(k + "::{closure"):
+                        for bb_, t_ in b.calls():
+                            cn = callee_name(t_)
+                            if not cn or cn in seen or cn not in self.f.bodies:
+                                continue
+                            seen.add(cn)
+                            if self.is_stage(cn):
+                                out.append(cn)
+                            elif self.f.bodies[cn].crate == "cozy_chess" and self.f.bodies[cn].kind in ("Fn", "AssocFn") and cn not in self.W \
+                                    and self.validator_role(cn) is None:
+                                work.append(cn)
+            self._stage[key] = sorted(out)
+        return self._stage[key]
+
+    def stage_kind(self, name):
+        """what a stage fills: placement / side / castling / ep / half / full (a set)"""
+        out = set()
+        for k in reachable_bodies(self.f, [name]):
+            for bb_, t_ in self.f.bodies[k].calls():
+                cn = callee_name(t_)
+                if cn in self.W:
+                    wb = self.f.bodies[cn]
+                    if wb.argc == 4 and "Piece" in wb.locals[2]["ty"]:
+                        out.add("placement")
+                    elif wb.argc == 1:
+                        out.add("side")
+                    elif wb.argc == 4:
+                        out.add("castling")
+                    elif wb.argc == 2:
+                        out.add("ep")
+        roles = self.stage_roles(name)
+        out |= {r for r in roles if r in ("half", "full", "derived")}
+        return out
+
+    def stage_for(self, ctor, kind):
+        """the stage of `ctor` that fills `kind` (the one doing nothing else when several do)"""
+        c = [s for s in self.stages(ctor) if kind in self.stage_kind(s)]
+        if len(c) > 1:
+            c2 = [s for s in c if self.stage_kind(s) <= {kind, "derived"}]
+            c = c2 or c
+        if len(c) != 1:
+            from ..facts import MissingAnchor
+            raise MissingAnchor("the %s stage of %s (found %s)" % (kind, ctor.rsplit("::", 1)[-1], [x.rsplit("::", 1)[-1] for x in c]))
+        return c[0]
+
+    def ret_kind(self, name):
+        rt = self.f.bodies[name].locals[0]["ty"]
+        if rt.startswith("core::result::Result<"):
+            return "result"
+        if rt.startswith("core::option::Option<"):
+            return "option"
+        return rt
+
+    def call_succeeded(self, p, e):
+        """the stage call `e` reported success on path p"""
+        k = self.ret_kind(e.name)
+        if k == "()":
+            return True
+        for c in p.conds:
+            if not sym.contains(c[0], lambda x: x == e.ret):
+                continue
+            x = c[0]
+            if k == "bool":
+                if x == e.ret and c[1] == 1:
+                    return True
+                continue
+            through_try = sym.contains(x, lambda y: y[0] == "trybranch")
+            if through_try or k == "result":
+                if c[1] == 0:
+                    return True
+            elif k == "option" and x == ("discr", e.ret) and c[1] == 1:
+                return True
+        return False
+
+    def path_succeeds(self, name, p):
+        """path p of stage `name` returns success; -> (bool, role validated by the returned expression or None)"""
+        if p.end != "return" or p.ret is None:
+            return False, None
+        k = self.ret_kind(name)
+        r = p.ret
+        if k == "result":
+            return (r[0] == "agg" and r[2] == "Ok"), None
+        if k == "option":
+            return (r[0] == "agg" and r[2] == "Some"), None
+        if k == "()":
+            return True, None
+        if k == "bool":
+            if r == sym.TRUE:
+                return True, None
+            if r[0] == "call" and self.validator_role(r[1]) is not None:
+                return True, self.validator_role(r[1])      # `.. ; board.x_is_valid()` as the tail expression
+        return False, None
 
     # ---- path analysis
     def ok_paths(self, name):
@@ -146,7 +279,7 @@ class Gate:
                 if depth_summary:
                     val = self.stage_validated(e.name)
                     # the stage must have succeeded on this path
-                    succeeded = any(c[1] == 0 and sym.contains(c[0], lambda x: x == e.ret) for c in p.conds)
+                    succeeded = self.call_succeeded(p, e)
                     if val and succeeded:
                         out.append((e.idx + 0.5, "V", set(val), e.name.rsplit("::", 1)[-1] + " (validated inside)"))
             else:
@@ -166,9 +299,12 @@ class Gate:
         b, paths = self.ok_paths(name)
         res = None
         for p in paths:
-            if p.end != "return" or not (p.ret[0] == "agg" and p.ret[2] == "Ok"):
+            okp, tailrole = self.path_succeeds(name, p)
+            if not okp:
                 continue
             tl = self.timeline(p, depth_summary=False)
+            if tailrole:
+                tl.append((10 ** 9, "V", {tailrole}, "validator as the returned value"))
             ok_roles = set()
             for r in ROLES:
                 lastw = max([i for i, k, rs, _ in tl if k == "W" and r in rs] + [-1])
